@@ -792,7 +792,8 @@ func checkC16Any(c any, r *Rec) error {
 	if src, ok := files[cs.MutFile]; ok {
 		files[cs.MutFile] = c01ApplyMuts(src, cs.Muts)
 	}
-	set := pongo2.NewSet("c16any", newMemLoader(files))
+	anyLd := newMemLoader(files)
+	set := pongo2.NewSet("c16any", anyLd)
 	tpl, err := set.FromFile(cs.Entry)
 	phase := "compile"
 	if err == nil {
@@ -822,14 +823,14 @@ func checkC16Any(c any, r *Rec) error {
 	if !known {
 		// a template that could not be loaded: the error names the missing file (there is no
 		// source to point into) and carries the position of the tag that referred to it.
-		// Recognised by what it is - a name some source refers to and no loader has - not by the
+		// Recognised by what it is - a name the loader was asked for and does not have - not by the
 		// error's Sender text.
-		base := named[strings.LastIndex(named, "/")+1:]
-		for _, other := range files {
-			if base != "" && strings.Contains(other, base) {
-				r.Class(phase + ":missing-file")
-				return nil
-			}
+		anyLd.mu.Lock()
+		asked := anyLd.misses[named] > 0
+		anyLd.mu.Unlock()
+		if asked {
+			r.Class(phase + ":missing-file")
+			return nil
 		}
 		return fmt.Errorf("%s error carries line %d col %d but names %q, which is none of the sources: %v\n files=%q", phase, e.Line, e.Column, named, e, files)
 	}
